@@ -31,6 +31,8 @@ def run(ctx, obs):
     loo_boundary(ctx, obs, 'inference.crossvalsets.sets_leave_one_out_rdm')
     from ..rules import sweeps
     sweeps.run(ctx, obs, 'C07')
+    from ..rules import order as _ord
+    _ord.report(ctx, obs, ['inference.crossvalsets.sets_leave_one_out_rdm', 'inference.noise_ceiling.', 'util.pooling.'])
     boot(ctx, obs)
     cv(ctx, obs)
     for q in POOLS:
